@@ -10,6 +10,10 @@ ids=("$@")
 if [ ${#ids[@]} -eq 0 ]; then ids=($(ls seeded)); fi
 [ -x bin/govc ] || ./setup.sh >/dev/null
 missed=0
+# snapshot of the machinery, so that work on /verif while the corpus runs cannot change a run half-way
+snap=$(mktemp -d /var/tmp/verif-selftest-snap-XXXXXX)
+for f in props.json ledger known_findings.json tools bounded bin replays; do cp -r $V/$f $snap/$f; done
+trap 'rm -rf $snap' EXIT
 for id in "${ids[@]}"; do
   patch=$V/seeded/$id/patch.diff
   [ -f $V/seeded/$id/patch.head.diff ] && patch=$V/seeded/$id/patch.head.diff   # same change rebased onto a later fix commit
@@ -22,11 +26,16 @@ for id in "${ids[@]}"; do
   if ! git -C $wt apply "$patch"; then
     echo "ERROR $id: patch does not apply to HEAD"; missed=1
   else
-    for f in props.json ledger known_findings.json tools bounded bin replays; do ln -s $V/$f $root/$f; done
+    for f in props.json ledger known_findings.json tools bounded bin replays; do ln -s $snap/$f $root/$f; done
     mkdir -p $root/evidence $root/replay
-    out=$(VERIF_ROOT=$root bin/govc check $prop -repo $wt 2>&1); rc=$?
+    out=$(VERIF_ROOT=$root $snap/bin/govc check $prop -repo $wt 2>&1); rc=$?
     nv=$(echo "$out" | grep -c '^VIOLATION')
-    if [ $rc -eq 1 ] && [ $nv -gt 0 ]; then
+    neutral=$(python3 -c "import json;print(json.load(open('$V/seeded/$id/meta.json')).get('at_head',''))" 2>/dev/null)
+    if [ "$neutral" = "neutral" ]; then
+      # the change no longer breaks the property on HEAD (neutralised by a later fix commit): the check must stay quiet
+      if [ $rc -eq 0 ] && [ $nv -eq 0 ]; then echo "NEUTRAL $id: property holds at HEAD with this change and the check stays quiet"
+      else echo "FALSE-ALARM $id (exit $rc): $(echo "$out" | grep '^VIOLATION' | head -3 | tr '\n' ' ')"; missed=1; fi
+    elif [ $rc -eq 1 ] && [ $nv -gt 0 ]; then
       echo "CAUGHT $id: $(echo "$out" | grep '^VIOLATION' | sed 's|.*replay=[^ ]*/||; s|\.json.*||; s|\.txt.*||' | sort -u | tr '\n' ' ')"
     else
       echo "MISSED $id (exit $rc): $(echo "$out" | tail -2 | tr '\n' ' ')"; missed=1
